@@ -195,6 +195,22 @@ theorem sell_bound_tight {env : Env} {s : State} {dIn dOut : Denom} {aIn aOut so
       this, decide_false]
 
 
+/-! ## the executable deadline predicate the driver evaluates holds of every model transition -/
+
+open Spec in
+theorem deadline_monitor {env : Env} {s s' : State} {op : Op} {r : Resp} (h : step env s op = .ok (s', r))
+    (hdl : ∀ dl, opDeadline op = some dl → dl < 9223372036854775808) :
+    c08_deadline { env := env, pre := s, op := op, ok := true, resp := r, post := s' } = true := by
+  unfold c08_deadline
+  cases hop : opDeadline op with
+  | none => simp
+  | some dl =>
+    have := deadline_respected h dl hop (hdl dl hop)
+    simp only [Bool.not_true, Bool.false_or, notPast, Bool.or_eq_true, Bool.and_eq_true, decide_eq_true_eq, beq_iff_eq]
+    rcases this with h1 | ⟨h1, h2⟩
+    · exact Or.inl h1
+    · exact Or.inr ⟨h1, h2⟩
+
 /-! ## non-vacuity: each kind of message succeeds on a concrete non-trivial state -/
 
 example : (step exEnv exState exSell).toBool = true := by decide +kernel
